@@ -42,6 +42,7 @@ type RunCfg struct {
 	Profile  string   `json:"profile"`
 	StartUS  int64    `json:"start_us"`
 	Strict   bool     `json:"strict,omitempty"`
+	Typed    bool     `json:"typed,omitempty"` // the log is driven through the typed facade (TLog[string,string])
 }
 
 type OpenOpts struct {
